@@ -106,9 +106,10 @@ def _run_mass(case):
     res = dens.check_measure_mass(fails, "measure", m, D)
     if res is None:
         return fails
-    Lam, nu, c, lnm, sc = res
-    x = np.asarray(case["x"], float)
-    lnu, su = oracle.ln_factor(Lam, nu, c, x)
+    ft, lnm, sc = res
+    # evaluation points near the mass of the first component (in units of the probe step)
+    x = np.asarray(case["x"], float) * dens._step(m) + ft.centers[0][None]
+    lnu, su = ft.evaluate(x)
     want = lnu - lnm[:, None]
     scale = su + sc[:, None]
     # get_density(): exactly u(x) / integral
